@@ -18,6 +18,18 @@ Theorem C12_run_meets_spec : forall ws sched how,
           (outcome_exn how (snd (run current ws sched))) = true.
 Proof. exact current_meets_spec. Qed.
 
+(** ... with the watchers a call really gets: per-call list if given, else
+    [run.watchers]; under sudo, a copy of that list plus sudo's own responder
+    answering with the per-call password if given, else the configured one.  (Every
+    call is judged on its own: the model of a call takes no state from earlier calls,
+    which is what fix 941d213 restored for a reused watchers list.) *)
+Theorem C12_call_meets_spec : forall cfg_ws kw_ws sudo sched how,
+  let ws := call_watchers cfg_ws kw_ws sudo in
+  spec_ok (spec_watchers cfg_ws kw_ws sudo) sched how
+          (fst (run current ws sched)) (snd (run current ws sched))
+          (outcome_exn how (snd (run current ws sched))) = true.
+Proof. exact call_meets_spec. Qed.
+
 (** For every text and every way of splitting it into reads, a Responder answers
     exactly the non-overlapping occurrences of its pattern in the whole text. *)
 Theorem C12_chunk_independent : forall (p : pattern) (r : string) (chunks : list text),
